@@ -307,6 +307,148 @@ def check_labels_are_names(ctx, rep):
         rep.ok('C02.N', key, where(tm, tm.functions['parse_tree']), {'modules_scanned': len(mods)})
 
 
+SLICE_POSITIVE = """
+def f(index, n, seq):
+    a = slice(*index.indices(n))
+    start = 0 if index.start is None else index.start
+    stop = n if index.stop is None else index.stop
+    return [seq[i] for i in range(start, stop)], seq[a]
+def g(index, n, seq):
+    start, stop, step = index.indices(n)
+    return seq[slice(start, stop, step)]
+"""
+SLICE_NEGATIVE = """
+def f(index, n, seq):
+    cols = list(range(*index.indices(n)))
+    start = index.start
+    if start is not None and start < 0:
+        start += n
+    return [seq[i] for i in cols], seq[index], list(range(start or 0, n))
+"""
+
+
+def hand_resolved_slices(tree):
+    """uses of a slice's bounds that Python does not resolve: (1) `slice(*s.indices(n))` — the triple of `indices` is meant for `range`, as a slice its −1 stop (negative
+    step, open end) means 'the last position' and selects nothing; (2) `s.start` / `s.stop` handed to `range` with no treatment of negative values"""
+    out = []
+    for fn in [n for n in ast.walk(tree) if isinstance(n, (ast.FunctionDef, ast.Lambda))]:
+        from_indices, bounds = set(), {}
+        body = [x for st in (fn.body if isinstance(fn.body, list) else [fn.body]) for x in ast.walk(st)]
+        for st in body:
+            if isinstance(st, ast.Assign) and len(st.targets) == 1:
+                v, t = st.value, st.targets[0]
+                if isinstance(v, ast.Call) and isinstance(v.func, ast.Attribute) and v.func.attr == 'indices':
+                    for e in (t.elts if isinstance(t, ast.Tuple) else [t]):
+                        if isinstance(e, ast.Name):
+                            from_indices.add(e.id)
+                reads = [x for x in ast.walk(v) if isinstance(x, ast.Attribute) and x.attr in ('start', 'stop') and not (isinstance(x.value, ast.Name) and x.value.id == 'self')]
+                if reads and isinstance(t, ast.Name) and not any(isinstance(x, ast.Call) and isinstance(x.func, ast.Attribute) and x.func.attr == 'indices' for x in ast.walk(v)):
+                    bounds[t.id] = reads[0]
+        if not from_indices and not bounds and not any(isinstance(x, ast.Call) and isinstance(x.func, ast.Name) and x.func.id in ('slice', 'range') for x in body):
+            continue
+        handled = set()
+        for x in body:
+            if isinstance(x, ast.Compare) and any(isinstance(c, ast.Constant) and c.value == 0 for c in [x.left] + x.comparators):
+                handled |= {n.id for n in ast.walk(x) if isinstance(n, ast.Name)}
+                handled |= {ast.unparse(n) for n in ast.walk(x) if isinstance(n, ast.Attribute)}
+            if isinstance(x, ast.BinOp) and isinstance(x.op, ast.Mod):
+                handled |= {n.id for n in ast.walk(x.left) if isinstance(n, ast.Name)}
+        for c in body:
+            if not (isinstance(c, ast.Call) and isinstance(c.func, ast.Name)):
+                continue
+            if c.func.id == 'slice':
+                for a in c.args:
+                    inner = a.value if isinstance(a, ast.Starred) else a
+                    if isinstance(inner, ast.Call) and isinstance(inner.func, ast.Attribute) and inner.func.attr == 'indices':
+                        out.append(('slice-from-indices', c))
+                        break
+                    if isinstance(inner, ast.Name) and inner.id in from_indices:
+                        out.append(('slice-from-indices', c))
+                        break
+            if c.func.id == 'range':
+                for a in c.args:
+                    for x in ast.walk(a):
+                        if isinstance(x, ast.Name) and x.id in bounds and x.id not in handled and ast.unparse(bounds[x.id]) not in handled:
+                            out.append(('bound-into-range', c))
+                        elif isinstance(x, ast.Attribute) and x.attr in ('start', 'stop') and not (isinstance(x.value, ast.Name) and x.value.id == 'self') \
+                                and ast.unparse(x) not in handled:
+                            out.append(('bound-into-range', c))
+    seen, uniq = set(), []
+    for k, c in out:
+        if id(c) not in seen:
+            seen.add(id(c))
+            uniq.append((k, c))
+    return uniq
+
+
+REORDER_CALLS = {'ladderize', 'randomly_rotate', 'reroot_at_node', 'reroot_at_edge', 'reroot_at_midpoint', 'to_outgroup_position', 'randomly_reorient', 'reorient',
+                 'shuffle_taxa', 'prune_taxa', 'prune_taxa_with_labels', 'retain_taxa', 'retain_taxa_with_labels', 'prune_leaves_without_taxa', 'collapse_unweighted_edges',
+                 'collapse_basal_bifurcation', 'suppress_unifurcations', 'randomly_assign_taxa', 'set_child_nodes', 'set_edge_lengths_from_node_ages', 'scale_edges'}
+
+
+def check_written_down(ctx, rep, rule='C02.N'):
+    """(1) column selections are resolved by Python's own slice semantics, (2) the tree whose nodes are indexed is the tree that was written (no rotation, re-rooting or
+    pruning between the parser and setup_indexes — internal nodes are numbered in the post-order of the newick, and every per-node vector the user supplies is laid out in
+    that order), (3) which nodes carry a branch is a matter of topology (has a parent), not of which lengths the file happens to write"""
+    if len(hand_resolved_slices(ast.parse(SLICE_POSITIVE))) != 3 or hand_resolved_slices(ast.parse(SLICE_NEGATIVE)):
+        raise AnalysisError(f'{rule} self-check: hand-resolved slices of the embedded examples are not recognised as expected')
+    mods = [m for m in ctx.prog.modules.values() if m.name.startswith('torchtree.evolution') or m.name.startswith('torchtree.core.utils')]
+    hits = [(m, k, c) for m in mods for k, c in hand_resolved_slices(m.tree)]
+    sm = ctx.prog.module('torchtree.evolution.site_pattern')
+    key = 'evolution::column-selections-resolved-by-python-slicing'
+    if hits:
+        m, k, c = hits[0]
+        why = ("the (start, stop, step) triple of slice.indices() is meant for range(); put back into a slice its stop of −1 (negative step, open end) means 'the last "
+               "position' and the selection is empty" if k == 'slice-from-indices' else
+               "a slice bound is handed to range() as written: a negative bound ('the last k columns') is not converted to a position, so range runs through the end of the "
+               "alignment and over it once more")
+        rep.bad(rule, key, where(m, c), {'sites': [f"{k}:{ast.unparse(x)[:60]}" for _, k, x in hits]}, f"`{ast.unparse(c)[:80]}`: {why} — the likelihood is that of other columns than "
+                f"the ones selected")
+    else:
+        rep.ok(rule, key, where(sm, sm.functions['compress']), {'modules_scanned': len(mods)})
+    # (2)
+    tm = ctx.prog.module(TMOD)
+    key = 'evolution::the-tree-indexed-is-the-tree-written'
+    hits = []
+    calls = 0
+    for m in mods:
+        for c in ast.walk(m.tree):
+            if isinstance(c, ast.Call) and isinstance(c.func, ast.Attribute):
+                calls += 1
+                if c.func.attr in REORDER_CALLS:
+                    hits.append((m, c))
+    if hits:
+        m, c = hits[0]
+        rep.bad(rule, key, where(m, c), {'calls': [ast.unparse(x)[:60] for _, x in hits]},
+                f"`{ast.unparse(c)[:60]}` rearranges the parsed tree: internal nodes are numbered in the post-order of the tree as written and every per-node vector of the "
+                f"configuration (branch lengths, heights, rates) is laid out in that order, so the values land on other branches")
+    else:
+        rep.ok(rule, key, where(tm, tm.functions['parse_tree']), {'method_calls_scanned': calls})
+    # (3)
+    key = 'evolution::branches-are-the-nodes-with-a-parent'
+    hits, filters = [], 0
+    for m in mods:
+        for c in ast.walk(m.tree):
+            tests = []
+            if isinstance(c, ast.Call) and isinstance(c.func, ast.Attribute) and c.func.attr.endswith('_node_iter'):
+                for a in list(c.args) + [k.value for k in c.keywords]:
+                    if isinstance(a, ast.Lambda):
+                        tests.append(a.body)
+            if isinstance(c, ast.comprehension) and ('_node_iter' in ast.unparse(c.iter) or '.nodes(' in ast.unparse(c.iter)):
+                tests.extend(c.ifs)
+            for t in tests:
+                filters += 1
+                if any(isinstance(x, ast.Attribute) and x.attr in ('edge_length', 'edge') for x in ast.walk(t)):
+                    hits.append((m, t))
+    if hits:
+        m, t = hits[0]
+        rep.bad(rule, key, where(m, t), {'filters': [ast.unparse(x)[:60] for _, x in hits]},
+                f"nodes are selected by `{ast.unparse(t)[:60]}`: whether a node has a length written in the file is not whether it has a branch — a root written with `:0.0` is "
+                f"taken for a branch (and a tip written without a length is dropped), so the same tree written differently gives another branch vector")
+    else:
+        rep.ok(rule, key, where(tm, tm.functions['parse_tree']), {'node_filters_scanned': filters})
+
+
 def check_names(ctx, rep):
     from sa.cfg import CFG
     tm = ctx.prog.module(TMOD)
@@ -452,6 +594,7 @@ def check_names(ctx, rep):
                       f"whichever column came first are used for all of them")
     check_child_symmetry(ctx, rep)
     check_labels_are_names(ctx, rep)
+    check_written_down(ctx, rep)
     # the order of the columns / of the index blocks does not matter only if every distinct column is kept with its full count (C01.W), and where the root is written does
     # not matter only if the per-node branch vector is the tree model's lengths followed by the one zero of the collapsed root branch (C01.B)
     from sa.report import RuleProxy as _RP
